@@ -133,6 +133,15 @@ def _let(pat, scr):
             and re.fullmatch(r"(v1|Option)::Some\([$_]\)", pat):
         # opt.and_then(f) is Some exactly when opt is Some(v) and f(v) is Some
         return ("op", "&&", [_let("v1::Some($)", scr[2][0]), _let(pat, _apply(scr[2][1], _proj_some(scr[2][0])))])
+    if re.fullmatch(r"(v1|Option)::Some\([$_]\)", pat):
+        if scr[0] == "if" and scr[3] == ("def", "v1::None"):
+            return ("op", "&&", [scr[1], _let(pat, scr[2])])        # (if c { a } else { None }) is Some  ==  c && a is Some
+        if scr[0] == "if" and scr[2] == ("def", "v1::None"):
+            return ("op", "&&", [_not(scr[1]), _let(pat, scr[3])])
+        if scr[0] == "call" and scr[1] == "then" and len(scr[2]) == 2:
+            return scr[2][0]                                         # c.then(|| v) is Some  ==  c
+        if scr[0] == "call" and scr[1] == "Some" and len(scr[2]) == 1:
+            return ("lit", True)
     return ("iflet", pat, scr)
 
 
@@ -202,6 +211,7 @@ def _finish_returns(t, top):
 
 
 _NONE = ("def", "v1::None")
+_NO_TAIL_TRY = False
 
 
 def _conj(c):
@@ -215,7 +225,7 @@ def _then_norm(c, v):
     is `X?` at those uses"""
     parts = _conj(c)
     i = 0
-    while i < len(parts):
+    while i < len(parts) and not _NO_TAIL_TRY:
         x = parts[i]
         if x[0] == "iflet" and re.fullmatch(r"(v1|Option)::Some\(\$\)", x[1]):
             payload = ("proj", x[2], x[1].split("(")[0], "0")
@@ -1630,7 +1640,12 @@ class Norm:
         if fn is None or fn["path"] in self._stack:
             return None
         sub = Norm(fn, program=self.program, keep=self.keep, _stack=self._stack)
-        t = sub.term(fn["body"])
+        global _NO_TAIL_TRY
+        saved, _NO_TAIL_TRY = _NO_TAIL_TRY, True        # `?` for "the result is None" is only meaningful while the term stays the result
+        try:
+            t = sub.term(fn["body"])
+        finally:
+            _NO_TAIL_TRY = saved
         if len(_show(t)) > INLINE_MAX_SIZE:
             return None
         args = [self._t(a) for a in arg_nodes]
@@ -1758,6 +1773,8 @@ class Norm:
                 elif t[0] == "call" and t[1] == v and acc.isdigit() and int(acc) < len(t[2]):
                     t = t[2][int(acc)]
                 elif t[0] == "call" and t[1] in ("Option::map", "Option::and_then") and v in ("v1::Some", "Option::Some") and acc == "0" and len(t[2]) == 2 and t[2][1][0] == "closure":
+                    t = _proj_some(t)
+                elif v in ("v1::Some", "Option::Some") and acc == "0" and (t[0] == "if" and ("def", "v1::None") in (t[2], t[3]) or t[0] == "call" and t[1] == "then" and len(t[2]) == 2):
                     t = _proj_some(t)
                 elif t[0] == "call" and t[1] in ("slice::split_first",) and len(t[2]) == 1 and v in ("v1::Some", "Option::Some") and acc == "0":
                     t = ("tup", [("index", t[2][0], ("lit", "0")), ("index", t[2][0], _RANGE_FROM_1)])     # xs.split_first() = (xs[0], xs[1..])
@@ -2616,6 +2633,14 @@ def _proj_some(O):
         return _apply(O[2][1], inner)
     if O[0] == "call" and O[1] == "Option::and_then" and len(O[2]) == 2 and O[2][1][0] == "closure" and O[2][1][2] == 1:
         return _proj_some(_apply(O[2][1], _proj_some(O[2][0])))
+    if O[0] == "if" and O[3] == ("def", "v1::None"):
+        return _proj_some(O[2])          # the payload of `if c { a } else { None }`, known to be Some, is a's
+    if O[0] == "if" and O[2] == ("def", "v1::None"):
+        return _proj_some(O[3])
+    if O[0] == "call" and O[1] == "then" and len(O[2]) == 2:
+        return O[2][1]
+    if O[0] == "call" and O[1] == "Some" and len(O[2]) == 1:
+        return O[2][0]
     return ("proj", O, "v1::Some", "0")
 
 
